@@ -8,6 +8,7 @@ pub mod hb;
 pub mod open;
 pub mod pool;
 pub mod dest;
+pub mod socks;
 
 pub fn run(args: &Args, log: &Log) -> Result<(), String> {
     match args.driver.as_str() {
@@ -20,6 +21,7 @@ pub fn run(args: &Args, log: &Log) -> Result<(), String> {
         "open" => open::run(args, log),
         "pool" => pool::run(args, log),
         "dest" => dest::run(args, log),
+        "socks" => socks::run(args, log),
         d => Err(format!("unknown driver {d}")),
     }
 }
